@@ -113,7 +113,11 @@ func tool(args []string) bool {
 }
 
 func mkcorpus(out string) {
-	td := "/repo/util/resolve/pypi/testdata"
+	repo := os.Getenv("VERIF_REPO")
+	if repo == "" {
+		repo = "/repo"
+	}
+	td := filepath.Join(repo, "util/resolve/pypi/testdata")
 	sets := [][]string{
 		{"pip-tests.data", "additional-tests.data", "prerelease.data", "prerelease.want"},
 		{"loops.data", "loops.want"},
